@@ -94,7 +94,9 @@ class Emcee(MCMCSampler):
         x = self.preconditioning_transform.inverse(z)[0]
 
         x_evidence, log_q = self.prior_flow.sample_and_log_prob(n_samples)
-        samples_evidence = Samples(x_evidence, log_q=log_q, xp=self.xp)
+        samples_evidence = Samples(
+            x_evidence, log_q=log_q, xp=self.xp, dtype=self.dtype
+        )
         samples_evidence.log_prior = self.log_prior(samples_evidence)
         samples_evidence.log_likelihood = self.log_likelihood(samples_evidence)
         samples_evidence.compute_weights()
